@@ -1551,21 +1551,38 @@ func (c *immuClient) VerifiedTxByID(ctx context.Context, tx uint64) (*schema.Tx,
 		return nil, err
 	}
 
+	if vTx.Tx == nil || vTx.Tx.Header == nil ||
+		vTx.DualProof == nil || vTx.DualProof.SourceTxHeader == nil || vTx.DualProof.TargetTxHeader == nil ||
+		len(vTx.Tx.Entries) == 0 || int(vTx.Tx.Header.Nentries) != len(vTx.Tx.Entries) {
+		return nil, store.ErrCorruptedData
+	}
+
 	dualProof := schema.DualProofFromProto(vTx.DualProof)
 
 	var sourceID, targetID uint64
-	var sourceAlh, targetAlh [sha256.Size]byte
+	var sourceAlh, targetAlh, txAlh [sha256.Size]byte
 
 	if state.TxId <= tx {
 		sourceID = state.TxId
 		sourceAlh = schema.DigestFromProto(state.TxHash)
 		targetID = tx
 		targetAlh = dualProof.TargetTxHeader.Alh()
+		txAlh = targetAlh
 	} else {
 		sourceID = tx
 		sourceAlh = dualProof.SourceTxHeader.Alh()
 		targetID = state.TxId
 		targetAlh = schema.DigestFromProto(state.TxHash)
+		txAlh = sourceAlh
+	}
+
+	// the returned transaction must be the one the proof is about: its entries
+	// must hash to the eH of its header and that header must be the proven one
+	rtx := schema.TxFromProto(vTx.Tx)
+	if rtx.Header().ID != tx ||
+		rtx.Header().Eh != schema.DigestFromProto(vTx.Tx.Header.EH) ||
+		rtx.Header().Alh() != txAlh {
+		return nil, store.ErrCorruptedData
 	}
 
 	if state.TxId > 0 {
